@@ -133,6 +133,8 @@ def gen(rng, tier, index):
     pol = policy.draw_policy(rng, est_len=200, stalls=False)
     pol['gran'] = 'sync'
     style = rng.choice(['plain', 'plain', 'mixed', 'overlap'])
+    if family == 'api' and rng.random() < 0.1:
+        style = 'empty'     # a bulb, a group or a location without a name
     _restyle(steps, NAME_STYLES[style])
     return {'family': family, 'policy': pol, 'gc': gc, 'steps': steps,
             'n_bulbs': n_bulbs, 'names': style,
@@ -149,6 +151,7 @@ NAME_STYLES = {
               'G1': 'Zoo', 'G2': 'kitchen', 'G3': 'Kitchen 2',
               'L1': 'Work', 'L2': 'home', 'L3': 'attic'},
     'overlap': {'G1': 'Amp', 'G2': 'Bed', 'L1': 'Amp', 'L2': 'G3'},
+    'empty': {'Amp': '', 'G1': '', 'L2': ''},
 }
 
 
